@@ -83,7 +83,7 @@ func (p *Pool) Doc(i int) Doc {
 var fileOps = []string{"file.text", "file.markdown", "file.document", "file.jsonl", "file.csv", "file.json", "file.pagecount"}
 var pdfOps = []string{"file.text", "file.markdown", "file.document", "file.jsonl", "file.csv", "file.fragments", "file.analyze",
 	"file.text.bycolumn", "file.text.nohf", "file.lines", "file.paragraphs", "file.pagecount",
-	"reader.repeat.fragments", "reader.repeat.markdown", "ext.repeat.text", "ext.repeat.markdown", "ext.repeat.jsonl"}
+	"reader.repeat.fragments", "reader.repeat.markdown", "ext.repeat.text", "ext.repeat.markdown", "ext.repeat.jsonl", "coll.sequence"}
 
 func (p *Pool) OpsFor(i int) []string {
 	switch p.Kind(i) {
@@ -288,6 +288,24 @@ func runOp(op, path string, data []byte) string {
 			return RepeatMismatch + " first: " + a + " later: " + b
 		}
 		return first
+	case "coll.sequence":
+		// one chunk collection rendered, exported in other formats, and rendered again: an
+		// export reads the collection, the second rendering equals the first
+		cc, _, err := tabula.Open(path).Chunks()
+		if err != nil || cc == nil {
+			return res("", nil, err)
+		}
+		first, err1 := cc.ToJSONL()
+		_, _ = cc.ToCSV()
+		_, _ = cc.ToTSV()
+		_ = cc.ToMarkdown()
+		_, _ = cc.ToJSON()
+		second, err2 := cc.ToJSONL()
+		if first != second || (err1 == nil) != (err2 == nil) {
+			a, b := sim.DiffContext(first, second)
+			return RepeatMismatch + " first: " + a + " later: " + b
+		}
+		return res(first, nil, err1)
 	case "file.text":
 		s, w, err := tabula.Open(path).Text()
 		return res(s, w, err)
